@@ -2,6 +2,10 @@ import ClusterVerif.Gen.C18
 import ClusterVerif.Lemmas.C18
 import ClusterVerif.Model.C18Source
 import ClusterVerif.Lemmas.C18Sync
+import ClusterVerif.Lemmas.C18SyncClusterA
+import ClusterVerif.Lemmas.C18SyncClusterB
+import ClusterVerif.Lemmas.C18SyncClusterC
+import ClusterVerif.Lemmas.C18SyncClusterR
 
 /-!
 # C18 — concurrent use of the API never races, panics, deadlocks or tears results
@@ -512,6 +516,7 @@ theorem gen_source_crdt_Consensus_Ready : Gen.Src.crdt_Consensus_Ready = Expecte
 theorem gen_source_crdt_Consensus_LogPin : Gen.Src.crdt_Consensus_LogPin = Expected.crdt_Consensus_LogPin := rfl
 theorem gen_source_crdt_Consensus_LogUnpin : Gen.Src.crdt_Consensus_LogUnpin = Expected.crdt_Consensus_LogUnpin := rfl
 theorem gen_source_crdt_Consensus_batchWorker : Gen.Src.crdt_Consensus_batchWorker = Expected.crdt_Consensus_batchWorker := rfl
+theorem gen_source_cluster_NewCluster : Gen.Src.cluster_NewCluster = Expected.cluster_NewCluster := rfl
 theorem gen_source_cluster_Cluster_run : Gen.Src.cluster_Cluster_run = Expected.cluster_Cluster_run := rfl
 theorem gen_source_cluster_Cluster_ready : Gen.Src.cluster_Cluster_ready = Expected.cluster_Cluster_ready := rfl
 theorem gen_source_cluster_Cluster_Ready : Gen.Src.cluster_Cluster_Ready = Expected.cluster_Cluster_Ready := rfl
@@ -605,43 +610,77 @@ theorem crdt_shutdown_safe : ∀ (sched : List Choice) (s : Nat) (evs : List SEv
       panicCode s = 0 ∧ (allFinished progB (cfgB 6) s = true ∨ ∃ c : Choice, (stepC progB (cfgB 6) s c).isSome = true) ∧
       racyB progB (cfgB 6) s = false := progB_safe
 
-/-- (c) FULL statement for `Cluster`: the faithful transcription `progC0` (NewCluster's goroutine running
-`ready()`, `watchPeers`, three `Shutdown`s, a `<-Ready()` user, a `<-Done()` waiter) is safe under all
-interleavings. REFUTED below (`cluster_shutdown_full_fails`): finding K18b. -/
-def cluster_shutdown_full : Prop :=
-  ∀ (sched : List Sync.Choice) (s : Nat) (evs : List Sync.SEv),
-    Sync.run Sync.Progs.progC0 (Sync.Progs.cfgC 8) Sync.Progs.initC sched = some (s, evs) →
-      Sync.panicCode s = 0 ∧
-      (Sync.allFinished Sync.Progs.progC0 (Sync.Progs.cfgC 8) s = true ∨
-        ∃ c : Sync.Choice, (Sync.stepC Sync.Progs.progC0 (Sync.Progs.cfgC 8) s c).isSome = true) ∧
-      Sync.racyB Sync.Progs.progC0 (Sync.Progs.cfgC 8) s = false
+/-- the safety statement of one program: under EVERY schedule no run-time panic of a synchronisation primitive, no
+deadlock (all threads finished or some thread can move), no racy state -/
+def SafeAll (P : List Sync.Code) (cfg : Sync.Cfg) (init : Nat) : Prop :=
+  ∀ (sched : List Sync.Choice) (s : Nat) (evs : List Sync.SEv), Sync.run P cfg init sched = some (s, evs) →
+    Sync.panicCode s = 0 ∧
+    (Sync.allFinished P cfg s = true ∨ ∃ c : Sync.Choice, (Sync.stepC P cfg s c).isSome = true) ∧
+    Sync.racyB P cfg s = false
 
 open Sync Sync.Progs in
-/-- (c) what holds: with `ready()` leaving through `ctx.Done()` (Shutdown before consensus is ready,
-or after `ready()` returned) and `watchPeers` not taking its removal branch: all interleavings of
-three `Shutdown`s, `watchPeers`, `ready`, the `<-Ready()` user and the `<-Done()` waiter are safe (254 states) -/
-theorem cluster_shutdown_safe_partial : ∀ (sched : List Choice) (s : Nat) (evs : List SEv),
-    run progC00 (cfgC 8) initC sched = some (s, evs) →
-      panicCode s = 0 ∧ (allFinished progC00 (cfgC 8) s = true ∨ ∃ c : Choice, (stepC progC00 (cfgC 8) s c).isSome = true) ∧
-      racyB progC00 (cfgC 8) s = false := progC00_safe
+/-- (c) FULL statement for `Cluster` (the protocol of `cluster.go` after 87856f0: `readyB` / `removed` under
+`stateLock`, `Shutdown` reading both once, `readyB` set before `close(readyCh)`, failure branches of `ready()`
+starting `Shutdown` with `go`): ALL interleavings of
+(i) two user `Shutdown`s issued at any moment after `NewCluster` returned — in particular while `ready()` is still
+running, the usage that deadlocked before the fix (K18b) — with `ready()`, `run()`, `watchPeers`, a `<-Ready()` user and
+a `<-Done()` waiter (2176 states); (ii) `ready()` taking its timeout / `consensus.Peers`-error branch and starting a
+`Shutdown` itself, concurrently with a user `Shutdown` (2692 states); (iii) `watchPeers` noticing the removal, setting
+`removed` and starting a `Shutdown`, concurrently with a user `Shutdown` (2752 states)
+are safe. In these programs no thread can move for ever (`watchPeers`' loop is unrolled once), so "not deadlocked"
+is not satisfied by a spinning ticker: every maximal execution ends with every started thread finished — every
+`Shutdown` returned, `Done()` released. -/
+theorem cluster_shutdown_safe :
+    SafeAll progC (cfgC 9) initC ∧ SafeAll progCF (cfgC 9) initC ∧ SafeAll progCR (cfgC 9) initC :=
+  ⟨progC_certified.safe, progCF_certified.safe, progCR_certified.safe⟩
 
 open Sync Sync.Progs in
-/-- FINDING K18b: `Cluster.Shutdown` racing `ready()` deadlocks — `ready()` (in the goroutine counted
-in `c.wg`) is between `close(c.readyCh)` and `c.shutdownLock.Lock()` when a `Shutdown` takes the lock
-and reaches `c.wg.Wait()`. Replayed on the real code by soak `clusterearly`. -/
-theorem cluster_shutdown_full_fails : ¬ cluster_shutdown_full := by
+/-- the K18b window is a run of `progC`: a user `Shutdown` reaches `c.wg.Wait()` (lock, flags read once, cancel) while
+`ready()` is between "consensus ready" and `c.stateLock.Lock()` -/
+example : (run progC (cfgC 9) initC
+    [(0,0),(0,0),(0,0),(0,0),(0,0),(0,0),(1,0),(1,0),(4,0),(4,1),(4,0),(4,0),(4,0),(4,0),(4,0),(4,0)]).isSome = true := by
+  decide +kernel
+
+/-- the statement `cluster_shutdown_safe` (i) for the protocol BEFORE 87856f0 (`progC0Old`: `readyB` / `removed` guarded
+by `shutdownLock`, `ready()` taking it after `close(readyCh)`). REFUTED below: this is what a revert of the fix
+reintroduces (finding K18b, fixed in /repo by 87856f0). -/
+def cluster_old_protocol_safe : Prop := SafeAll Sync.Progs.progC0Old (Sync.Progs.cfgCOld 8) Sync.Progs.initCOld
+
+open Sync Sync.Progs in
+/-- the OLD protocol restricted (`ready()` leaving through `ctx.Done()`, `watchPeers` without its removal branch) was
+safe (254 states): the deadlocks below need `ready()` / `watchPeers` to reach their `shutdownLock.Lock()` -/
+theorem cluster_old_protocol_safe_restricted : SafeAll progC00Old (cfgCOld 8) initCOld := progC00Old_safe
+
+open Sync Sync.Progs in
+/-- K18b (fixed by 87856f0; a revert brings it back): in the OLD protocol `Cluster.Shutdown` racing `ready()` deadlocks —
+`ready()` (in the goroutine counted in `c.wg`) is between `close(c.readyCh)` and `c.shutdownLock.Lock()` when a `Shutdown`
+takes the lock and reaches `c.wg.Wait()`. Replayed on the real code by soak `clusterearly`. -/
+theorem cluster_old_protocol_deadlocks : ¬ cluster_old_protocol_safe := by
   intro hfull
-  obtain ⟨s, evs, hrun, _, hnf, hstuck⟩ := progC0_deadlocks
-  obtain ⟨_, hlive, _⟩ := hfull schedC0 s evs hrun
+  obtain ⟨s, evs, hrun, _, hnf, hstuck⟩ := progC0Old_deadlocks
+  obtain ⟨_, hlive, _⟩ := hfull schedC0Old s evs hrun
   rcases hlive with h | ⟨c, hc⟩
   · rw [h] at hnf; cases hnf
   · rw [hstuck c] at hc; cases hc
 
 open Sync Sync.Progs in
-/-- the same deadlock shape through `watchPeers` (it takes `shutdownLock` in a goroutine counted in `c.wg`) -/
-theorem cluster_watchpeers_deadlock : ∃ s evs, run progC (cfgC 8) initC schedC = some (s, evs) ∧
-    panicCode s = 0 ∧ allFinished progC (cfgC 8) s = false ∧ ∀ c : Choice, stepC progC (cfgC 8) s c = none :=
-  progC_deadlocks
+/-- the same deadlock shape of the OLD protocol through `watchPeers` (it took `shutdownLock` in a goroutine counted in `c.wg`) -/
+theorem cluster_old_watchpeers_deadlock : ∃ s evs, run progCOld (cfgCOld 8) initCOld schedCOld = some (s, evs) ∧
+    panicCode s = 0 ∧ allFinished progCOld (cfgCOld 8) s = false ∧ ∀ c : Choice, stepC progCOld (cfgCOld 8) s c = none :=
+  progCOld_deadlocks
+
+open Sync Sync.Progs in
+/-- realistic wrong edits of the REPAIRED protocol, refuted by one schedule each: (c1) a failure branch of `ready()`
+calling `c.Shutdown(ctx)` without `go` deadlocks (`Shutdown` waits for the wait group that counts its own goroutine);
+(c2) `Shutdown` keeping `stateLock` until it returns (`defer`) deadlocks with `ready()`; (c3) `ready()` writing `readyB`
+without `stateLock` reaches a racy state with `Shutdown`'s read -/
+theorem cluster_wrong_edits_refuted :
+    (∃ s evs, run progC1 (cfgC 2) (mkInit (cfgC 2) [0]) schedC1 = some (s, evs) ∧
+        panicCode s = 0 ∧ allFinished progC1 (cfgC 2) s = false ∧ ∀ c : Choice, stepC progC1 (cfgC 2) s c = none)
+    ∧ (∃ s evs, run progC2 (cfgC 9) initC schedC2 = some (s, evs) ∧
+        panicCode s = 0 ∧ allFinished progC2 (cfgC 9) s = false ∧ ∀ c : Choice, stepC progC2 (cfgC 9) s c = none)
+    ∧ (∃ s evs, run progC3 (cfgC 9) initC schedC3 = some (s, evs) ∧ racyB progC3 (cfgC 9) s = true) :=
+  ⟨progC1_deadlocks, progC2_deadlocks, progC3_racy⟩
 
 open Sync Sync.Progs in
 /-- usages OUTSIDE "in use", refuted by one schedule each: `SetClient` concurrent with `Shutdown` sends
